@@ -354,7 +354,14 @@ def finish(prop, tier, seed, results, known, wall, verbose):
             for mname in missing[:10]:
                 print('UNDECIDED: obligation of the baseline was not generated: ' + mname)
     if os.environ.get('VERIF_WRITE_BASELINE') == '1' and code == 0:
-        baseline[prop] = {n: sorted(seen_vc[n]) for n in sorted(seen_names)}
+        if os.environ.get('VERIF_BASELINE_MERGE') == '1' and prop in baseline:
+            # second pass with another solver seed: whether a path that the contract excludes is pruned as infeasible or kept (and
+            # then discharged) can depend on the seed, so only obligations generated under every seed are required to reappear;
+            # the VC fingerprints of all passes are kept
+            old_ = baseline[prop]
+            baseline[prop] = {n: sorted(set(old_[n]) | set(seen_vc[n])) for n in sorted(seen_names) if n in old_}
+        else:
+            baseline[prop] = {n: sorted(seen_vc[n]) for n in sorted(seen_names)}
         with open(os.path.join(VERIF, 'contracts', 'baseline_obligations.json'), 'w') as f:
             json.dump(baseline, f, indent=0, sort_keys=True)
     OUT = os.environ.get('VERIF_OUT', VERIF)    # evidence/replays of runs against a scratch tree (tools/run_seeded.py) go elsewhere
